@@ -500,6 +500,100 @@ theorem tie_progRestHandler (v : Verdict) (q : SiteReq) :
   rw [hc]
   cases v <;> simp [restTable, siteEvents, Site.rejectRet]
 
+/-! ### meta-properties of the interpreter (`Prog.run`): what remains trusted is the token translation
+
+The interpreter is hand-written; these theorems are about it for ALL programs / states, not about one program. -/
+
+section ProgMeta
+open GoZero.C01.Prog
+
+theorem emit_defers (s : St) (e : PEv) : (s.emit e).defers = s.defers := rfl
+theorem stick_defers (s : St) : s.stick.defers = s.defers := rfl
+
+theorem foldl_emit_defers (ms : List Mark) (s : St) :
+    (ms.foldl (fun s m => s.emit (.mark m)) s).defers = s.defers := by
+  induction ms generalizing s with
+  | nil => rfl
+  | cons m ms ih => simp only [List.foldl_cons]; rw [ih]; rfl
+
+theorem callSem_defers (env : Env) (s : St) (lhs : List String) (f : String) (args : List String) :
+    (callSem env s lhs f args).defers = s.defers := by
+  unfold callSem
+  simp only [apply_ite St.defers]
+  simp [emit_defers, stick_defers, foldl_emit_defers]
+
+/-- `exec` never drops, reorders or duplicates a registered deferred body: it only pushes new ones on top -/
+theorem exec_defers_suffix (env : Env) (n : Nat) (toks : List Tok) (s : St) :
+    ∃ l, (exec env n toks s).defers = l ++ s.defers := by
+  induction n generalizing toks s with
+  | zero => exact ⟨[], by simp [exec, St.stick]⟩
+  | succ n ih =>
+    cases toks with
+    | nil => exact ⟨[], by simp [exec]⟩
+    | cons t r =>
+      unfold exec
+      split
+      · exact ⟨[], by simp⟩
+      · cases t with
+        | call lhs f args =>
+          obtain ⟨l, hl⟩ := ih r (callSem env s lhs f args)
+          exact ⟨l, by simp only [hl, callSem_defers]⟩
+        | set lhs rhs =>
+          simp only
+          split
+          · obtain ⟨l, hl⟩ := ih r { s with succ := true }; exact ⟨l, hl⟩
+          · split
+            · exact ih r s
+            · exact ⟨[], by simp [St.stick]⟩
+        | var name ty =>
+          simp only
+          split
+          · obtain ⟨l, hl⟩ := ih r { s with succ := false }; exact ⟨l, hl⟩
+          · split
+            · exact ih r s
+            · exact ⟨[], by simp [St.stick]⟩
+        | ifB c =>
+          simp only
+          split
+          · obtain ⟨l, hl⟩ := ih r (if c = "b.proba.TrueOnProba(dropRatio)" then { s with draws := s.draws + 1 } else s)
+            refine ⟨l, ?_⟩; rw [hl]; split <;> rfl
+          · obtain ⟨l, hl⟩ := ih (skipThen 0 r) (if c = "b.proba.TrueOnProba(dropRatio)" then { s with draws := s.draws + 1 } else s)
+            refine ⟨l, ?_⟩; rw [hl]; split <;> rfl
+          · refine ⟨[], ?_⟩; simp only [St.stick, List.nil_append]; split <;> rfl
+        | elseB => exact ih (skipBlock 0 r) s
+        | deferB =>
+          obtain ⟨l, hl⟩ := ih (skipBlock 0 r) { s with defers := takeBlock 0 r :: s.defers }
+          exact ⟨l ++ [takeBlock 0 r], by simp [hl]⟩
+        | endB => exact ih r s
+        | ret vals => exact ⟨[], by simp⟩
+        | retCall f args =>
+          simp only
+          split
+          · exact ⟨[], by simp [St.emit]⟩
+          · exact ⟨[], by simp [St.stick]⟩
+
+/-- **a deferred marker runs exactly once and leaves the way the function ended untouched — whatever that way is**:
+a plain return, falling off the end, or unwinding (the one ending that stands for a panic with any value and for
+`runtime.Goexit`) -/
+theorem runDefer_marker (env : Env) (s : St) (en : Option Ending) (f : String) (m : Mark)
+    (hs : s.stuck = false)
+    (hf : (f = "b.markFailure" ∧ m = .fail) ∨ (f = "b.markSuccess" ∧ m = .succ) ∨ (f = "b.markDrop" ∧ m = .drop)) :
+    runDefer env { s with ending := en } [.call [] f []]
+      = { s with evs := s.evs ++ [.mark m], ending := en, defers := [] } := by
+  rcases hf with ⟨rfl, rfl⟩ | ⟨rfl, rfl⟩ | ⟨rfl, rfl⟩ <;>
+    simp [runDefer, exec, callSem, St.emit, hs]
+
+/-- the function as a whole: the body runs, then EVERY deferred body still registered runs exactly once (one visit per
+list element), newest first; together with `exec_defers_suffix` (a registered body is never dropped or duplicated while
+the body runs) and `runDefer_marker`: a deferred marker fires exactly once on return, at the end of the body and on
+unwinding. -/
+theorem run_unfold (env : Prog.Env) (prog : List Tok) (s0 : Prog.St) :
+    Prog.run env prog s0
+      = (Prog.exec env (prog.length + 1) prog s0).defers.foldl (Prog.runDefer env)
+          { Prog.exec env (prog.length + 1) prog s0 with defers := [] } := rfl
+
+end ProgMeta
+
 /-! ### loggedThrottle and promiseWithReason: transparent wrappers, semantically -/
 
 /-- **`loggedThrottle.doReq` is `logError ∘ googleBreaker.doReq`** with `req` and `fallback` forwarded unchanged and a
